@@ -39,6 +39,15 @@ JOBS = [
         replace=[('MGRS::CheckCoords', dict(may_throw=True)), 'MGRS::LatitudeBand', 'MGRS::UTMRow'], const_classes=['UTMUPS'],
         cases=[('p_m1', 'in_prec == -1'), ('p0', 'in_prec == 0')] + [('p%d' % k, 'in_prec == %d' % k) for k in range(1, 12)] + [('p_out', 'in_prec < -1 || in_prec > 11')],
         description='MGRS encoder (latitude given)'),
+    Job('MGRS.Reverse', 'MGRS::Reverse', ['C05', 'C13', 'C14'], unwind=30, strcap=29, timeout=400, replace=[LOOKUP, 'MGRS::UTMRow'], const_classes=['UTMUPS'],
+        unwindset={'MGRS_Reverse.0': 30, 'MGRS_Reverse.1': 15, 'verif_index_of.0': 26, 'verif_strlen.0': 26},
+        cases=[('len%d' % k, 'in_mgrs.len == %d' % k) for k in range(0, 29)],
+        defines=['MR_STRUCT'], sat='cadical',
+        description='MGRS decoder, structure (one sub-job per string length 0..28: the digit loops then have concrete trip counts)'),
+    Job('MGRS.Reverse.values', 'MGRS::Reverse', ['C05'], unwind=30, strcap=29, timeout=400, replace=[LOOKUP, 'MGRS::UTMRow'], const_classes=['UTMUPS'],
+        unwindset={'MGRS_Reverse.0': 30, 'MGRS_Reverse.1': 15, 'verif_index_of.0': 26, 'verif_strlen.0': 26}, defines=['MR_VALUES'],
+        assume=('in_mgrs.len <= 6', 'the value clauses concern prec <= 0 only, and MGRS.Reverse/post.accept_structure shows prec >= 1 for every accepted string longer than 6'),
+        description='MGRS decoder, coordinates of grid-zone-only and 100 km strings'),
     Job('MGRS.UTMRow', 'MGRS::UTMRow', ['C05', 'C14'], description='row/band compatibility (exhaustive over all 3200 argument triples)'),
 ]
 
